@@ -37,7 +37,15 @@ impl Buf {
     fn raw(&mut self, b: &[u8]) {
         self.0.extend_from_slice(b)
     }
-    /// return code + description on -1
+    /// return code + description on -1 (`null_err`: the hook passed err == NULL, nothing to retrieve)
+    fn ret_n<E: std::fmt::Display>(&mut self, r: &Result<(), E>, null_err: bool) {
+        if null_err {
+            self.u8(if r.is_ok() { 0 } else { 1 });
+            self.u8(0xfe);
+        } else {
+            self.ret(r);
+        }
+    }
     fn ret<E: std::fmt::Display>(&mut self, r: &Result<(), E>) {
         match r {
             Ok(()) => self.u8(0),
@@ -159,7 +167,9 @@ pub fn generate_with(rng: &mut Rng, pp: &mut ParsedPacket, max_ops: usize, first
                     _ => valid_text(rng, None).text.into_bytes(),
                 };
                 let text: Vec<u8> = text.into_iter().filter(|&c| c != 0).collect();
+                let ne = rng.chance(1, 5);
                 s.u8(8);
+                s.u8(ne as u8);
                 s.u8(sec as u8);
                 s.u16(text.len() as u16);
                 s.raw(&text);
@@ -168,8 +178,8 @@ pub fn generate_with(rng: &mut Rng, pp: &mut ParsedPacket, max_ops: usize, first
                     Ok(t) => pp.insert_rr_from_string(section, t).map_err(|e| e.to_string()),
                 };
                 l.u8(8);
-                l.ret(&r);
-                sigs.push(format!("add|{}|{}", sec, r.is_ok()));
+                l.ret_n(&r, ne);
+                sigs.push(format!("add|{}|{}|null{}", sec, r.is_ok(), ne as u8));
                 ops.push(format!("add_to_{:?}({:?}) -> {:?}", section, String::from_utf8_lossy(&text[..text.len().min(60)]), r.is_ok()));
             }
             14 | 15 => {
@@ -230,7 +240,9 @@ pub fn generate_with(rng: &mut Rng, pp: &mut ParsedPacket, max_ops: usize, first
                 };
                 let wf = |w: &[u8]| Name::from_wire(w).map(|(n, l)| l == w.len() && n.0.iter().all(|l| l.iter().all(|&c| !(c < 0x20 || c == 0x7f || c == b'.' || c == b'\\')))).unwrap_or(false);
                 if (t.is_empty() || wf(&t)) && wf(&sname) && t.len() <= 255 && sname.len() <= 255 {
+                    let ne = rng.chance(1, 5);
                     s.u8(11);
+                    s.u8(ne as u8);
                     s.u16(t.len() as u16);
                     s.raw(&t);
                     s.u16(sname.len() as u16);
@@ -238,27 +250,30 @@ pub fn generate_with(rng: &mut Rng, pp: &mut ParsedPacket, max_ops: usize, first
                     s.u8(suffix as u8);
                     let r = pp.rename_with_raw_names(&t, &sname, suffix).map_err(|e| e.to_string());
                     l.u8(11);
-                    l.ret(&r);
+                    l.ret_n(&r, ne);
                     sigs.push(format!("rename|{}", r.is_ok()));
                     ops.push(format!("rename({} -> {}, {}) -> {:?}", hex(&sname[..sname.len().min(20)]), hex(&t[..t.len().min(20)]), suffix, r.is_ok()));
                 }
             }
             _ => {
                 let n = some_text_name(rng);
+                let ne = rng.chance(1, 5);
                 s.u8(12);
+                s.u8(ne as u8);
                 s.u16(n.len() as u16);
                 s.raw(&n);
                 let r = r#gen::raw_name_from_str(&n, None);
                 l.u8(12);
                 match &r {
                     Ok(raw) => {
-                        l.u8(0);
+                        let ok: Result<(), String> = Ok(());
+                        l.ret_n(&ok, ne);
                         l.u16(raw.len() as u16);
                         l.raw(raw);
                     }
                     Err(e) => {
                         let e: Result<(), String> = Err(e.to_string());
-                        l.ret(&e);
+                        l.ret_n(&e, ne);
                     }
                 }
                 sigs.push(format!("raw_name_from_str|{}", r.is_ok()));
@@ -384,19 +399,23 @@ fn iterate(rng: &mut Rng, pp: &mut ParsedPacket, s: &mut Buf, l: &mut Buf, ops: 
                     }
                     8 | 9 => {
                         let n = some_raw_name(rng);
+                        let ne = rng.chance(1, 5);
                         s.u8(8);
+                        s.u8(ne as u8);
                         s.u16(n.len() as u16);
                         s.raw(&n);
                         let r = item.set_raw_name(&n).map_err(|e| e.to_string());
                         l.u8(0x18);
-                        l.ret(&r);
+                        l.ret_n(&r, ne);
                         sigs.push(format!("set_raw_name|{}|dead{}", r.is_ok(), dead as u8));
                         desc.push_str(&format!(" set_raw_name->{}", r.is_ok()));
                     }
                     10 | 11 => {
                         let n = some_text_name(rng);
                         let z = zone_choices(rng);
+                        let ne = rng.chance(1, 5);
                         s.u8(9);
+                        s.u8(ne as u8);
                         s.u16(n.len() as u16);
                         s.raw(&n);
                         s.u16(z.len() as u16);
@@ -406,15 +425,17 @@ fn iterate(rng: &mut Rng, pp: &mut ParsedPacket, s: &mut Buf, l: &mut Buf, ops: 
                             Ok(raw) => item.set_raw_name(&raw).map_err(|e| e.to_string()),
                         };
                         l.u8(0x19);
-                        l.ret(&r);
+                        l.ret_n(&r, ne);
                         sigs.push(format!("set_name|{}|z{}|dead{}", r.is_ok(), z.len().min(2), dead as u8));
                         desc.push_str(&format!(" set_name->{}", r.is_ok()));
                     }
                     12 | 13 => {
+                        let ne = rng.chance(1, 5);
                         s.u8(10);
+                        s.u8(ne as u8);
                         let r = item.delete().map_err(|e| e.to_string());
                         l.u8(0x1a);
-                        l.ret(&r);
+                        l.ret_n(&r, ne);
                         sigs.push(format!("delete|{}|dead{}", r.is_ok(), dead as u8));
                         desc.push_str(&format!(" delete->{}", r.is_ok()));
                         dead = true;
@@ -563,8 +584,12 @@ impl<'a> RRun<'a> {
         self.pos += n;
         v
     }
-    unsafe fn lg_ret(&mut self, ret: c_int, err: *const CErr) {
+    unsafe fn lg_ret(&mut self, ret: c_int, err: *const CErr, null_err: bool) {
         self.log.u8(if ret == 0 { 0 } else if ret == -1 { 1 } else { 2 });
+        if null_err {
+            self.log.u8(0xfe);
+            return;
+        }
         if ret == -1 {
             let mut n = 0usize;
             let d = if err.is_null() { std::ptr::null() } else { (self.t.error_description)(err) };
@@ -627,28 +652,31 @@ impl<'a> RRun<'a> {
                     self.log.u8(0x17);
                 }
                 8 => {
+                    let ne = self.rd8() != 0;
                     let len = self.rd16() as usize;
                     let b = self.rdn(len).into_boxed_slice();
                     let mut err: *const CErr = std::ptr::null();
-                    let ret = (self.t.set_raw_name)(it, &mut err, b.as_ptr(), len);
+                    let ret = (self.t.set_raw_name)(it, if ne { std::ptr::null_mut() } else { &mut err }, b.as_ptr(), len);
                     self.log.u8(0x18);
-                    self.lg_ret(ret, err);
+                    self.lg_ret(ret, err, ne);
                 }
                 9 => {
+                    let ne = self.rd8() != 0;
                     let nlen = self.rd16() as usize;
                     let n = self.rdn(nlen).into_boxed_slice();
                     let zlen = self.rd16() as usize;
                     let z = self.rdn(zlen).into_boxed_slice();
                     let mut err: *const CErr = std::ptr::null();
-                    let ret = (self.t.set_name)(it, &mut err, n.as_ptr() as *const c_char, nlen, if zlen > 0 { z.as_ptr() } else { std::ptr::null() }, zlen);
+                    let ret = (self.t.set_name)(it, if ne { std::ptr::null_mut() } else { &mut err }, n.as_ptr() as *const c_char, nlen, if zlen > 0 { z.as_ptr() } else { std::ptr::null() }, zlen);
                     self.log.u8(0x19);
-                    self.lg_ret(ret, err);
+                    self.lg_ret(ret, err, ne);
                 }
                 10 => {
+                    let ne = self.rd8() != 0;
                     let mut err: *const CErr = std::ptr::null();
-                    let ret = (self.t.delete)(it, &mut err);
+                    let ret = (self.t.delete)(it, if ne { std::ptr::null_mut() } else { &mut err });
                     self.log.u8(0x1a);
-                    self.lg_ret(ret, err);
+                    self.lg_ret(ret, err, ne);
                 }
                 _ => {
                     self.log.u8(0xEF);
@@ -742,14 +770,19 @@ pub fn rust_driver(t: &RawTable, pp: &mut ParsedPacket, script: &[u8]) -> Vec<u8
                                     r.rdn(n);
                                 }
                                 8 => {
+                                    r.rd8();
                                     let n = r.rd16() as usize;
                                     r.rdn(n);
                                 }
                                 9 => {
+                                    r.rd8();
                                     let n = r.rd16() as usize;
                                     r.rdn(n);
                                     let z = r.rd16() as usize;
                                     r.rdn(z);
+                                }
+                                10 => {
+                                    r.rd8();
                                 }
                                 _ => {}
                             }
@@ -758,14 +791,15 @@ pub fn rust_driver(t: &RawTable, pp: &mut ParsedPacket, script: &[u8]) -> Vec<u8
                     }
                 }
                 8 => {
+                    let ne = r.rd8() != 0;
                     let sec = r.rd8() as usize;
                     let len = r.rd16() as usize;
                     let text = r.rdn(len);
                     let c = CString::new(text).unwrap_or_default();
                     let mut err: *const CErr = std::ptr::null();
-                    let ret = (t.add[sec.min(3)])(ppp, &mut err, c.as_ptr());
+                    let ret = (t.add[sec.min(3)])(ppp, if ne { std::ptr::null_mut() } else { &mut err }, c.as_ptr());
                     r.log.u8(8);
-                    r.lg_ret(ret, err);
+                    r.lg_ret(ret, err, ne);
                 }
                 9 => {
                     let cap = r.rd16() as usize;
@@ -791,25 +825,27 @@ pub fn rust_driver(t: &RawTable, pp: &mut ParsedPacket, script: &[u8]) -> Vec<u8
                     r.log.u16(qt);
                 }
                 11 => {
+                    let ne = r.rd8() != 0;
                     let tl = r.rd16() as usize;
                     let tn = r.rdn(tl).into_boxed_slice();
                     let sl = r.rd16() as usize;
                     let sn = r.rdn(sl).into_boxed_slice();
                     let suf = r.rd8() != 0;
                     let mut err: *const CErr = std::ptr::null();
-                    let ret = (t.rename)(ppp, &mut err, tn.as_ptr(), tl, sn.as_ptr(), sl, suf);
+                    let ret = (t.rename)(ppp, if ne { std::ptr::null_mut() } else { &mut err }, tn.as_ptr(), tl, sn.as_ptr(), sl, suf);
                     r.log.u8(11);
-                    r.lg_ret(ret, err);
+                    r.lg_ret(ret, err, ne);
                 }
                 12 => {
+                    let ne = r.rd8() != 0;
                     let len = r.rd16() as usize;
                     let n = r.rdn(len).into_boxed_slice();
                     let mut out: Box<[u8; 256]> = Box::new([0x5c; 256]);
                     let mut raw_len: size_t = 0xdddd;
                     let mut err: *const CErr = std::ptr::null();
-                    let ret = (t.raw_name_from_str)(out.as_mut_ptr(), &mut raw_len, &mut err, n.as_ptr() as *const c_char, len);
+                    let ret = (t.raw_name_from_str)(out.as_mut_ptr(), &mut raw_len, if ne { std::ptr::null_mut() } else { &mut err }, n.as_ptr() as *const c_char, len);
                     r.log.u8(12);
-                    r.lg_ret(ret, err);
+                    r.lg_ret(ret, err, ne);
                     if ret == 0 {
                         r.log.u16(raw_len as u16);
                         r.log.raw(&out[..raw_len.min(256)]);
